@@ -1001,6 +1001,16 @@ func (u *Unit) specCall(e *SExpr, ctx *specCtx) (Val, error) {
 			return Val{T: t, Ty: tIntT}, nil
 		}
 		return Val{T: "0", Ty: tIntT}, nil
+	case "callok":
+		// callok(Name): this activation has called Name and the most recent such call returned a nil error
+		if len(e.Args) != 1 || e.Args[0].Op != "ident" {
+			return Val{}, fmt.Errorf("callok(Name)")
+		}
+		cn := "%lasterr_" + sanitize(e.Args[0].Name)
+		if t, ok := ctx.cur.heap[cn]; ok {
+			return Val{T: eq(t, "A_nil"), Ty: types.Typ[types.Bool]}, nil
+		}
+		return Val{T: "false", Ty: types.Typ[types.Bool]}, nil
 	case "atheader":
 		if ctx.header == nil {
 			return Val{}, fmt.Errorf("atheader() is only available in iteration clauses")
